@@ -6,7 +6,7 @@ cd /verif
 export GOFLAGS=-mod=mod GOPROXY=off GOSUMDB=off GOTOOLCHAIN=local
 jobs=/tmp/par-jobs.$$; : > $jobs
 if [ "$mode" = mustfail ]; then
-  for d in seeded/C*-[ABCDEF]; do m=$(basename $d); echo "$m|$d/patch.diff|${m%-*}" >> $jobs; done
+  for d in seeded/C*-[ABCDEFG]; do m=$(basename $d); echo "$m|$d/patch.diff|${m%-*}" >> $jobs; done
   for f in selftest/*.diff; do m=$(basename $f .diff); case $m in c17-*) p=C17;; F2-revert) p=C11;; *) p=$(echo $m | cut -d- -f1 | tr a-z A-Z);; esac; echo "$m (hand-made)|$f|$p" >> $jobs; done
   while read c p l; do git -C /repo show $c -- . ':!verif_contracts.go' ':!cmd/opgen/verif_contracts.go' > /tmp/par-rev-$c-$p.diff; echo "$l (revert $c)|REV:/tmp/par-rev-$c-$p.diff|$p" >> $jobs; done <<'EOT'
 1cda1bd C12 F1
